@@ -50,7 +50,41 @@ func runC07(c *Ctx) {
 	}
 
 	// ---- R2 ------------------------------------------------------------------------------------
-	c.Rule("R2", "HandleConsumerDoubleVoting: punishment only after client found, evidence height >= min height, and VerifyDoubleVotingEvidence(evidence, chain id of this consumer, pubkey) succeeded; both punishments always follow; parameters of this consumer", 10)
+	c.Rule("R2", "HandleConsumerDoubleVoting: punishment only after client found, evidence height >= min height, and VerifyDoubleVotingEvidence(evidence, chain id of this consumer, pubkey) succeeded; both punishments always follow; parameters of this consumer; the min height is written only by the branch that binds the client (fresh client: initial height, re-used client: its latest height)", 10)
+	// the minimum evidence height compared below is written once per launch, by the branch that
+	// binds the client: a fresh client starts at the consumer's initial height, a re-used client of a
+	// chain that was sovereign before starts at that client's latest height (older evidence predates CCV)
+	c.OnlyCalledFrom("pk.Keeper.SetEquivocationEvidenceMinHeight", "pk.Keeper.CreateConsumerClient", "pk.Keeper.MakeConsumerGenesis")
+	emptyStr := func(v ssa.Value) bool { s, ok := constString(v); return ok && s == "" }
+	for _, w := range []struct {
+		fn    string
+		fresh bool
+	}{{"pk.Keeper.CreateConsumerClient", true}, {"pk.Keeper.MakeConsumerGenesis", false}} {
+		f := c.Fn(w.fn)
+		if f == nil {
+			continue
+		}
+		set := c.one(f, false, "pk.Keeper.SetEquivocationEvidenceMinHeight")
+		if set == nil {
+			continue
+		}
+		rec := PCall("pk.Keeper.GetConsumerInitializationParameters", 0, nil, nil, PParam("consumerId"))
+		noConn := AEq("initialization ConnectionId == \"\"", PField(rec, "ConnectionId"), emptyStr)
+		if w.fresh {
+			c.UnreachableWhen(set, fk(f, "min-height-only-for-fresh-client"), F(noConn))
+			c.Check(PField(PField(rec, "InitialHeight"), "RevisionHeight")(arg(set, 2)) && PParam("consumerId")(arg(set, 1)), fk(f, "min-height-value"), set, "min height := the consumer's InitialHeight.RevisionHeight; found "+describe(arg(set, 2)))
+		} else {
+			c.UnreachableWhen(set, fk(f, "min-height-only-for-reused-client"), T(noConn))
+			_, name, ok := fieldLoadOf(arg(set, 2))
+			base, name2, ok2 := fieldLoadOf(fieldBaseOrNil(arg(set, 2)))
+			_ = base
+			c.Check(ok && name == "RevisionHeight" && ok2 && name2 == "LatestHeight" && PParam("consumerId")(arg(set, 1)), fk(f, "min-height-value"), set, "min height := the re-used client's LatestHeight.RevisionHeight; found "+describe(arg(set, 2)))
+			if bind := c.one(f, false, "pk.Keeper.SetConsumerClientId"); bind != nil {
+				c.Check(mustPassBefore(set, bind), fk(f, "min-height-with-binding"), set, "written on the path that binds the existing client")
+			}
+		}
+	}
+
 	if f := c.Fn("pk.Keeper.HandleConsumerDoubleVoting"); f != nil {
 		id := PParam("consumerId")
 		clientFound := ABool("consumer has a client", PCall("pk.Keeper.GetConsumerClientId", 1, nil, nil, id))
@@ -317,4 +351,13 @@ func runC07(c *Ctx) {
 	c.OnlyCalledFrom("pk.Keeper.JailAndTombstoneValidator", "pk.Keeper.HandleConsumerDoubleVoting", "pk.Keeper.HandleConsumerMisbehaviour")
 	c.OnlyCalledFrom("pk.Keeper.HandleConsumerDoubleVoting", "pk.msgServer.SubmitConsumerDoubleVoting")
 	c.OnlyCalledFrom("pk.Keeper.HandleConsumerMisbehaviour", "pk.msgServer.SubmitConsumerMisbehaviour")
+}
+
+// fieldBaseOrNil: the value a field load reads from (nil if v is not a field load).
+func fieldBaseOrNil(v ssa.Value) ssa.Value {
+	b, _, ok := fieldLoadOf(v)
+	if !ok {
+		return nil
+	}
+	return b
 }
